@@ -240,13 +240,17 @@ func (t *Tpl) writeNode(w io.Writer, node *node, ctx *Ctx) (err error) {
 			}
 			if len(node.prefix) > 0 {
 				// Write prefix.
-				_, _ = w.Write(node.prefix)
+				if _, err = w.Write(node.prefix); err != nil {
+					return
+				}
 			}
 			// Write bytes data.
-			_, err = w.Write(ctx.BufAcc.StakedBytes())
+			if _, err = w.Write(ctx.BufAcc.StakedBytes()); err != nil {
+				return
+			}
 			// Write suffix.
 			if len(node.suffix) > 0 {
-				_, _ = w.Write(node.suffix)
+				_, err = w.Write(node.suffix)
 			}
 		}
 	case typeCtx:
